@@ -279,6 +279,21 @@ CHECKS['C18'] = dict(
     technique='grammar-machine enumeration in TLA+ + translation validation decided by TLC + CPython model validation',
     design_ref='DESIGN.md sections 3.4 (Anf), 5 (C18); notes/C18.md', engine='tlc-anf')
 
+CHECKS['C19'] = dict(
+    text='spec/TypeSem.tla: operational semantics of a typed Python subset over run-time type tags (assignment, unpacking, '
+         'aug-assign, if/while/for, closures with nonlocal, local and typed external calls) with the typing tables of '
+         'spec/TypeTables.tla; TLC explores all paths of every program (quick: 3.1 k programs incl. every <=2-statement block '
+         'over 2 variables x 3 types, ~79 k states; thorough: 62.7 k programs incl. every <=3-statement block and all 11945 '
+         'closure combinations, 2.65 M states) and checks in every step that each anno.Static.TYPES claim of the real '
+         'type_inference (driven by a truthful Resolver built from the spec\'s typing tables) contains the run-time tag and that '
+         'CLOSURE_TYPES cover the captured variables at every call of a local function. An absent claim is never a violation.',
+    note='Trusts TLC, CPython and the exporter\'s occurrence mapping. The model is validated on every run: each complete '
+         'execution is replayed on CPython; all 344 typing-table entries are checked against CPython. Bounded: <=2 while '
+         'iterations per loop instance, <=60/80 steps, <=8/10 decisions per execution; value-dependent operations are cut. CFG '
+         'successor order pinned to two fixed orders. 7 open known-finding signatures.',
+    technique='TLA+ semantics + claim monitor, TLC all-paths exploration, CPython replay of every execution, signature-preserving witness shrinking',
+    design_ref='DESIGN.md sections 3.3 (TypeSem), 5 (C19); notes/C19.md', engine='tlc-typesem')
+
 NOT_CLAIMED = {}
 
 
